@@ -119,7 +119,7 @@ class ProfileMachine(Machine):
                 'mask': enc(g.random(data.shape) < 0.08), 'xycen': xy,
                 'radii': radii}
 
-    def build(self, cfg, sc, data_obj=None):
+    def build(self, cfg, sc, data_obj=None, mask_obj=None):
         import astropy.units as u
         from photutils.profiles import CurveOfGrowth, RadialProfile
         data = dec(sc['data']).copy() if data_obj is None else data_obj
@@ -134,8 +134,9 @@ class ProfileMachine(Machine):
         rad = (np.array(sc['radii']) if rep != 'list' else list(sc['radii']))
         return cls(data, xy, rad,
                    error=err,
-                   mask=(dec(sc['mask']).astype(
+                   mask=((dec(sc['mask']).astype(
                        np.uint8 if cfg.get('int_mask') else bool)
+                       if mask_obj is None else mask_obj)
                        if cfg['mask'] else None),
                    method=cfg['method'], subpixels=cfg.get('subpixels', 3))
 
@@ -203,7 +204,13 @@ class ProfileMachine(Machine):
         # the caller's image array: one object for the whole run (it is
         # edited in place between two constructions by 'rebuild')
         st.data_obj = dec(st.scene['data']).copy()
-        st.obj = call(self.build, st.cfg, st.scene, st.data_obj)
+        # ... and the caller's mask array: one object, handed to every
+        # object built during the run; it must stay what it is
+        st.mask_obj = dec(st.scene['mask']).astype(
+            np.uint8 if st.cfg.get('int_mask') else bool)
+        st.mask0 = st.mask_obj.copy()
+        st.obj = call(self.build, st.cfg, st.scene, st.data_obj,
+                      st.mask_obj)
         st.dead = isinstance(st.obj, Raised)
         if st.dead:
             stats.probe('constructor_rejected_config')
@@ -236,6 +243,10 @@ class ProfileMachine(Machine):
                     'method': rng.pick(['max', 'sum', 'max', 'bogus'])}
         if r < 0.86:
             return {'op': 'unnormalize'}
+        if r < 0.865:
+            # the object goes through copy.deepcopy / pickle (as it does on
+            # its way to a worker process) and the clone is used from then on
+            return {'op': 'clone', 'how': rng.pick(['deepcopy', 'pickle'])}
         if r < 0.875:
             # the caller repairs or flags a pixel of its image *in place* and
             # builds a new profile object from the same array
@@ -304,6 +315,11 @@ class ProfileMachine(Machine):
             pass
         st.held.check(f'by {op.get("op")} {op.get("method", "")} '
                       f'(history {st.hist})')
+        if st.mask_obj.dtype != st.mask0.dtype or not np.array_equal(
+                st.mask_obj, st.mask0):
+            raise Violation('input_modified', 'mask',
+                            f'the mask array given to the constructor was '
+                            f'changed (by {op.get("op")}, history {st.hist})')
 
     def _step(self, st, op):
         o = st.obj
@@ -402,6 +418,17 @@ class ProfileMachine(Machine):
                     self._check_array(st, a, v, where + ' (restored)')
                     st.read.add(a)
             return
+        if kind == 'clone':
+            import copy as _c
+            import pickle as _p
+            new = call((lambda: _c.deepcopy(o)) if op['how'] == 'deepcopy'
+                       else (lambda: _p.loads(_p.dumps(o))))
+            if isinstance(new, Raised):
+                raise Violation('raises', op['how'], repr(new))
+            st.obj = new
+            st.hist.append('clone')
+            st.stats.probe('object_cloned_' + op['how'])
+            return
         if kind == 'rebuild':
             y, x = op['pix']
             d = st.data_obj
@@ -412,7 +439,7 @@ class ProfileMachine(Machine):
             else:
                 d[y, x] = 2 if d.dtype.kind != 'f' else 1.5
             st.scene = dict(st.scene, data=enc(d))
-            new = call(self.build, st.cfg, st.scene, d)
+            new = call(self.build, st.cfg, st.scene, d, st.mask_obj)
             if isinstance(new, Raised):
                 raise Violation('raises', 'constructor',
                                 f'rebuilding from the edited image: {new!r}')
